@@ -4,6 +4,7 @@
 From Coq Require Import List Arith Bool Lia Permutation ZArith.
 From LMBase Require Import Res ListX.
 From LMDense Require Import DenseModel DenseProofs DenseReg DenseRegProofs DenseCheck DenseCheckProofs.
+From LMDense Require Import DenseSteps DenseStepsProofs.
 Import ListNotations.
 
 (* Stride: at least the column count, a whole number of alignment units, minimal. *)
@@ -199,6 +200,38 @@ Proof.
   - exact (take_mixed_o_spec pat t).
   - apply take_mixed_perm. rewrite firstn_length. lia.
 Qed.
+
+(* Positional iteration (next / next_back / nth / nth_back, i.e. what skip, step_by, rev().skip,
+   rev().step_by are made of), for any interleaving of the four calls, continued past exhaustion:
+   call j hands out exactly the row whose index the shrinking window [lo, hi) of all rows
+   designates (front calls take lo + k and move lo past it, back calls take hi - 1 - k and
+   move hi down to it), every index lies inside the table, no row is handed out twice, and
+   len() after each call is the size of the window. *)
+Theorem C19_iteration_steps :
+  forall (T : Type) (pat : list istep) (t : list (list T)),
+    take_steps pat t = map (pick t) (steps_idx pat 0 (length t)) /\
+    (forall i, In (Some i) (steps_idx pat 0 (length t)) -> i < length t) /\
+    NoDup (somes (steps_idx pat 0 (length t))) /\
+    steps_lens pat (length t) = steps_idx_lens pat 0 (length t).
+Proof.
+  intros T pat t. split; [exact (take_steps_idx pat t)|]. split; [|split].
+  - intros i Hi. apply (steps_idx_in_range pat 0 (length t) i (Nat.le_0_l _)) in Hi. lia.
+  - exact (steps_idx_nodup pat 0 (length t) (Nat.le_0_l _)).
+  - rewrite <- (steps_lens_idx pat 0 (length t) (Nat.le_0_l _)). now rewrite Nat.sub_0_r.
+Qed.
+
+(* skip(k) and rev().skip(k) as std implements them (one nth(k) / nth_back(k) call, then plain
+   next() / next_back()): the rows from k on, in forward respectively reverse order. *)
+Theorem C19_iteration_skip_adaptors :
+  forall (T : Type) (k : nat) (t : list (list T)),
+    somes (take_steps (SNth k :: repeat SNext (length t)) t) = skipn k t /\
+    somes (take_steps (SNthBack k :: repeat SBack (length t)) t) = skipn k (rev t).
+Proof. intros T k t. split; [exact (take_steps_skip k t)|exact (take_steps_rev_skip k t)]. Qed.
+
+Example C19_iteration_steps_nonvacuous :
+  take_steps [SNthBack 1; SNth 1; SBack; SNext; SNext] [[1]; [2]; [3]; [4]; [5]; [6]]
+  = [Some [5]; Some [2]; Some [4]; Some [3]; None].
+Proof. reflexivity. Qed.
 
 (* The extracted checker used by the driver for PROPFAIL decides exactly the
    specification relation trace_ok (DenseCheck.v): it is sound and complete. *)
